@@ -186,7 +186,8 @@ def check(case):
         # model-level mutations are this stratum's subject; alone in their
         # evolution they are not the optimiser's (C03) business
         # ... as long as nothing else in the run concerns the renamed/deleted model
-        # and there is one RenameModel at most (F-C03-4 otherwise)
+        # and it is the only model-level mutation of the run (F-C03-4 otherwise: e.g.
+        # DeleteModel(Item) + RenameModel(BookStore -> Item) reuses a model name)
         tr = EC.spec_trail(spec0, seq)
         per_uid, model_level_uids, renames = {}, [], 0
         for i, m_ in enumerate(seq):
@@ -196,7 +197,8 @@ def check(case):
             if m_['kind'] in ('RenameModel', 'DeleteModel'):
                 model_level_uids.append(u)
                 renames += m_['kind'] == 'RenameModel'
-        if renames <= 1 and all(per_uid.get(u) == 1 for u in model_level_uids):
+        if renames <= 1 and len(model_level_uids) <= 1 and \
+                all(per_uid.get(u) == 1 for u in model_level_uids):
             for k_ in fl:
                 fl[k_].discard('model_level')
     if any(fl.values()):
